@@ -9,7 +9,7 @@ from typing import Dict, List, Optional, Set, Tuple
 
 from ..db import ProgramDB, FuncInfo, ClassInfo, AnalysisError, unparse, own_nodes, dotted
 from ..cfg import CFG, Node, run_forward
-from ..facts import own_calls, call_attr, call_name, resolve_call_target, bind_args, fn_params
+from ..facts import user_type_calls, passthrough_helpers, own_calls, call_attr, call_name, resolve_call_target, bind_args, fn_params
 from ..framework import inst, HOLDS, VIOLATION, UNDECIDED, INFO, Instance
 from ..abseval import AbsEval, State, const, TOP, TRUE, FALSE, truth
 from .entries import public_entries, entry_model, with_regions, mode_manager_kind, const_arg, is_eval_method_name
@@ -201,6 +201,22 @@ def rule_mode_pairing(db: ProgramDB) -> List[Instance]:
 
 
 # ---------------------------------------------------------------------------------- STACK-PAIRING
+def _fresh_or_handed_in_stack(fn: FuncInfo, v: ast.AST) -> bool:
+    """the value the context stack is replaced with does not come from the current stack: an empty list, or a stack the caller
+    hands in (an evaluation that proceeds in steps keeps the blocks its user code opened on a stack of its own)"""
+    if isinstance(v, ast.List) and not v.elts:
+        return True
+    if isinstance(v, ast.Call) and dotted(v.func) == "list" and not v.args:
+        return True
+    if isinstance(v, ast.Name) and v.id in fn.params:
+        return True
+    if isinstance(v, ast.IfExp):
+        return _fresh_or_handed_in_stack(fn, v.body) and _fresh_or_handed_in_stack(fn, v.orelse)
+    if isinstance(v, ast.BoolOp) and isinstance(v.op, ast.Or):
+        return all(_fresh_or_handed_in_stack(fn, x) for x in v.values)
+    return False
+
+
 def _stack_mutations(node_ast: ast.AST) -> List[Tuple[str, ast.AST]]:
     muts = []
     for x in ast.walk(node_ast):
@@ -279,8 +295,7 @@ def rule_stack_pairing(db: ProgramDB) -> List[Instance]:
         saved_names = {a.targets[0].id for a in own_nodes(fn.node) if isinstance(a, ast.Assign) and len(a.targets) == 1 and isinstance(a.targets[0], ast.Name)
                        and isinstance(a.value, ast.Attribute) and a.value.attr == "_symbolic_expression_stack_"}
         restores = [node for o, node in muts if o == "assign" and isinstance(node, ast.Assign) and isinstance(node.value, ast.Name) and node.value.id in saved_names]
-        replaces = [node for o, node in muts if o == "assign" and isinstance(node, ast.Assign) and isinstance(node.value, (ast.List, ast.Call))
-                    and (isinstance(node.value, ast.List) and not node.value.elts or isinstance(node.value, ast.Call) and dotted(node.value.func) == "list" and not node.value.args)]
+        replaces = [node for o, node in muts if o == "assign" and isinstance(node, ast.Assign) and _fresh_or_handed_in_stack(fn, node.value)]
         paired = set()
         if restores and replaces and len(restores) + len(replaces) == len(muts):
             cfg = CFG(fn)
@@ -578,14 +593,15 @@ def rule_usercode_reach(db: ProgramDB) -> List[Instance]:
     var = db.cls("Variable")
     for c in [var] + var.all_subclasses(include_self=False):
         for m in c.methods.values():
-            for call in own_calls(m):
-                f = call.func
-                if isinstance(f, ast.Attribute) and f.attr == "_type_" and isinstance(f.value, ast.Name) and f.value.id == "self":
-                    sites.append((m, call, "constructs self._type_(…) (user class / predicate function)"))
+            for call in user_type_calls(m):
+                sites.append((m, call, "constructs self._type_(…) (user class / predicate function)"))
     pom = db.method("Variable", "_process_output_and_update_values_")
     p = pom.positional_params[1]
+    helpers_ = passthrough_helpers(var)
     for call in own_calls(pom):
         if isinstance(call.func, ast.Name) and call.func.id == p:
+            sites.append((pom, call, "calls the Predicate instance"))
+        elif isinstance(call.func, ast.Attribute) and call.func.attr in helpers_ and call.args and unparse(call.args[0]) == p:
             sites.append((pom, call, "calls the Predicate instance"))
     dm = db.cls("DomainMapping")
     for c in dm.all_subclasses():
@@ -717,7 +733,7 @@ def rule_eval_no_context(db: ProgramDB) -> List[Instance]:
     ev = AbsEval(db, sm, cfg)
 
     def sets_aside(nd):
-        return nd.kind == "stmt" and nd.ast is not None and any(o == "assign" and isinstance(x, ast.Assign) and isinstance(x.value, (ast.List, ast.Call))
+        return nd.kind == "stmt" and nd.ast is not None and any(o == "assign" and isinstance(x, ast.Assign) and _fresh_or_handed_in_stack(sm, x.value)
                                                                  for o, x in _stack_mutations(nd.ast))
     ys = [nd for nd in cfg.nodes if nd.has_yield]
     if not ys:
@@ -731,4 +747,71 @@ def rule_eval_no_context(db: ProgramDB) -> List[Instance]:
                     f"predicate whose body builds a query (`with symbolic_mode(): an(entity(m, HasType(m, Handle)))`) has HasType bound implicitly to q's "
                     f"selected variable and conjoined into q ({', '.join(r.short for r in readers)} read the context) - IndexError inside the block, "
                     f"['g1'] outside", line=sm.lineno))
+    # an evaluation that proceeds in steps (an(...).evaluate() is a generator) switches mode and context per step; user code that is
+    # suspended between two steps with a block open (a generator used as a domain: `with symbolic_mode(q): yield from q.evaluate()`)
+    # pushed onto the stack of one step and pops from the stack of a later one - so the steps of one evaluation share one stack
+    an = db.cls("An")
+    ev_m = an.methods.get("evaluate")
+    if ev_m is None or not ev_m.is_generator:
+        raise AnalysisError("An.evaluate is not a generator")
+    step_blocks = [w for w in own_nodes(ev_m.node) if isinstance(w, ast.With) and any(
+        isinstance(it.context_expr, ast.Call) and isinstance(resolve_call_target(db, ev_m, it.context_expr), FuncInfo)
+        and resolve_call_target(db, ev_m, it.context_expr).qualname == sm.qualname for it in w.items)]
+    loops = [l for l in own_nodes(ev_m.node) if isinstance(l, (ast.While, ast.For))]
+    n_steps = 0
+    for w in step_blocks:
+        encl = [l for l in loops if any(x is w for x in ast.walk(l))]
+        if not encl:
+            continue
+        n_steps += 1
+        call = next(it.context_expr for it in w.items if isinstance(it.context_expr, ast.Call))
+        handed = next((k.value for k in call.keywords if k.arg and "stack" in k.arg), None)
+        ok2 = False
+        if isinstance(handed, ast.Name):
+            # created once, outside the stepping loop
+            creations = [a for a in own_nodes(ev_m.node) if isinstance(a, ast.Assign) and any(isinstance(t, ast.Name) and t.id == handed.id for t in a.targets)]
+            ok2 = bool(creations) and all(not any(any(x is a for x in ast.walk(l)) for l in encl) for a in creations) and \
+                all(isinstance(a.value, ast.List) and not a.value.elts for a in creations)
+        out.append(inst("EVAL-NO-CONTEXT", HOLDS if ok2 else VIOLATION, ev_m, "An.evaluate[the steps of one evaluation share one context stack]",
+                        f"every step hands in `{unparse(handed)}`, created empty before the loop" if ok2 else
+                        "each step of the evaluation runs on a context stack of its own: a generator used as a domain that holds a block open on a query while it "
+                        "yields pushes in one step and pops in a later one (IndexError / AttributeError at the end of the block), and a predicate evaluated in "
+                        "between is bound to nothing", line=w.lineno))
+    if n_steps == 0:
+        raise AnalysisError("An.evaluate: no per-step mode-off block found")
+    # user code is called with the mode off at the call itself: the step-level switch can have been overridden by user code that is
+    # suspended inside the step with a block open
+    var = db.cls("Variable")
+    helpers_ = passthrough_helpers(var)
+    n_calls = 0
+    for m in var.methods.values():
+        if m.cls is not var:
+            continue
+        cand = list(user_type_calls(m))
+        if m.name == "_process_output_and_update_values_":
+            p_ = m.positional_params[1]
+            cand += [c for c in own_calls(m) if (isinstance(c.func, ast.Name) and c.func.id == p_) or
+                     (isinstance(c.func, ast.Attribute) and c.func.attr in helpers_ and c.args and unparse(c.args[0]) == p_)]
+        for c in cand:
+            n_calls += 1
+            through = isinstance(c.func, ast.Attribute) and c.func.attr in helpers_
+            off = False
+            if through:
+                h = var.lookup(c.func.attr)
+                off = any(isinstance(w, ast.With) and any(isinstance(it.context_expr, ast.Call) and dotted(it.context_expr.func) == "symbolic_mode"
+                                                          and any(k.arg == "mode" and isinstance(k.value, ast.Constant) and k.value.value is None for k in it.context_expr.keywords)
+                                                          for it in w.items) and any(isinstance(r, ast.Return) for b in w.body for r in ast.walk(b))
+                          for w in own_nodes(h.node))
+            else:
+                off = any(isinstance(w, ast.With) and any(x is c for x in ast.walk(w)) and any(
+                    isinstance(it.context_expr, ast.Call) and dotted(it.context_expr.func) == "symbolic_mode" and any(
+                        k.arg == "mode" and isinstance(k.value, ast.Constant) and k.value.value is None for k in it.context_expr.keywords) for it in w.items)
+                          and not any(isinstance(y, (ast.Yield, ast.YieldFrom)) for b in w.body for y in ast.walk(b)) for w in own_nodes(m.node))
+            out.append(inst("EVAL-NO-CONTEXT", HOLDS if off else VIOLATION, m, f"{m.short}[{unparse(c)[:50]}: mode off at the call]",
+                            "the user's class / predicate is called inside `symbolic_mode(mode=None)`" if off else
+                            f"`{unparse(c)[:60]}` runs under whatever mode is current at that moment: a generator used as a domain that keeps `with symbolic_mode():` "
+                            f"open while it yields has switched the mode on again for the rest of the step, so a Predicate subclass evaluated after the first pull is "
+                            f"built, not run, and counts as true", line=c.lineno))
+    if n_calls < 3:
+        raise AnalysisError(f"only {n_calls} user-code call site(s) found in Variable")
     return out
